@@ -48,8 +48,9 @@ CLAIMS = {
     "C04": dict(
         text="fixed<->fixed, fixed<->integer and bool conversions through to_num and from_num call paths in all five forms, plus ~1100 "
              "existing From/LossyFrom impls, validated by TLC against R = floor(x * 2^(fd-fs)) and the generic policies; From must be "
-             "lossless and in range for every source value.",
-        technique="TLA+ trace validation with TLC (impl->spec)", design_ref="6/C04"),
+             "lossless and in range for every source value; compile-time impl-existence probes over 3932 layout pairs. Design model MC_Conv: "
+             "to_fixed_helper + overflowing_/saturating_from_fixed as coded = floor shift / wrap / clamp for 1296 layout pairs x all values.",
+        technique="TLA+ trace validation with TLC (impl->spec) + TLC design model of the conversion core", design_ref="6/C04"),
     "C05": dict(
         text="float->fixed (five forms, both call paths) and fixed->float (five forms) for f32/f64 over 106 layouts: TLC recomputes "
              "round-to-nearest-even on exact integers (FloatToFixR, FixToFloatBits incl. gradual underflow and overflow to infinity) and "
@@ -102,7 +103,9 @@ CLAIMS = {
         technique="TLA+ trace validation with TLC (impl->spec), both build profiles, loop-budget hook", design_ref="6/C12"),
     "C13": dict(
         text="sqrt results validated by TLC through an integer certificate (no square root needed): max(r-4,0)^2 <= x*2^(2fD-fS) <= (r+4)^2, "
-             "exact at 0 and 1, Err only where the operand is negative or its reciprocal does not fit the destination.",
+             "exact at 0 and 1, Err only where the operand is negative or its reciprocal does not fit the destination. The corpus contains EVERY "
+             "value of the 16-bit layouts U8F8 and I8F8 (thorough: seven 16-bit layouts). Design model MC_MathAlg: the Newton iteration "
+             "transcribed loop for loop (fidelity to the code: ./check G06) meets the certificate for every operand of four small layouts.",
         technique="TLA+ trace validation with TLC (impl->spec), exact integer certificate", design_ref="6/C13"),
     "C14": dict(
         text="log2 / ln results validated by TLC against reference values computed inside the specification with 200 fractional bits "
